@@ -131,13 +131,20 @@ def _loads(node):
     return [(nm, n) for nm, n in out if id(n) not in lam]
 
 
-def check_function(func):
-    """list of (name, node) read before being definitely assigned"""
-    locals_, comp = local_names(func)
-    params = {p.lstrip('*') for p in U.params(func)}
-    g = C.build(func)
-    IN = C.must_forward(g, _gen)
-    bad = []
+def _test_key(test):
+    """(key, polarity) of a test that is a pure expression over names: `flag`, `not flag`, `n > 0` ...; None otherwise"""
+    pol = True
+    while isinstance(test, ast.UnaryOp) and isinstance(test.op, ast.Not):
+        test, pol = test.operand, not pol
+    for n in ast.walk(test):
+        if isinstance(n, (ast.Call, ast.Lambda, ast.NamedExpr, ast.Await, ast.Yield, ast.YieldFrom, ast.Subscript)):
+            return None
+    return U.dump(test), pol, U.names_in(test)
+
+
+def _bad_reads(func, g, locals_, params, edge_ok=None):
+    IN = C.must_forward(g, _gen, edge_ok=edge_ok)
+    bad = {}
     for node in g.nodes:
         if node.kind in ('entry', 'exit'):
             continue
@@ -148,10 +155,52 @@ def check_function(func):
             if name in params or name not in locals_:
                 continue
             if name not in have:
-                bad.append((name, n))
+                bad[(name, id(n))] = (name, n)
+    return bad
+
+
+def check_function(func):
+    """list of (name, node) read before being definitely assigned.  Path-sensitive in one pure test at a time: for a test
+    expression that occurs more than once (a flag, `n > 0`, ...) and whose names are not re-assigned between the tests, the
+    analysis is repeated under each truth value with the infeasible edges removed; a read is reported only if it is
+    unassigned under every such case split."""
+    locals_, comp = local_names(func)
+    params = {p.lstrip('*') for p in U.params(func)}
+    g = C.build(func)
+    bad = _bad_reads(func, g, locals_, params)
+    if bad:
+        tests = {}
+        for node in g.nodes:
+            if node.kind == 'test' and isinstance(node.ast, ast.If):
+                k = _test_key(node.ast.test)
+                if k is not None:
+                    tests.setdefault(k[0], []).append((node, k[1], k[2]))
+        stores = {}
+        for n in U.walk_no_nested(func):
+            if isinstance(n, ast.Name) and isinstance(n.ctx, (ast.Store, ast.Del)):
+                stores[n.id] = stores.get(n.id, 0) + 1
+            if isinstance(n, ast.AugAssign) and isinstance(n.target, ast.Name):
+                stores[n.target.id] = stores.get(n.target.id, 0) + 1
+        for key, sites in tests.items():
+            if len(sites) < 2 or not bad:
+                continue
+            names = sites[0][2]
+            # the value of the test must be the same at every site: its names are parameters never assigned, or locals assigned once
+            if any(stores.get(nm, 0) > (0 if nm in params else 1) for nm in names):
+                continue
+            site = {node.id: pol for node, pol, _ in sites}
+            still = None
+            for val in (True, False):
+                def ok(node, label, val=val):
+                    if node.id in site and label in (True, False):
+                        return label == (val if site[node.id] else (not val))
+                    return True
+                b = _bad_reads(func, g, locals_, params, edge_ok=ok)
+                still = dict(b) if still is None else {**still, **b}
+            bad = {k_: v for k_, v in bad.items() if k_ in still}
     # de-duplicate by (name, line)
     seen, out = set(), []
-    for name, n in bad:
+    for name, n in bad.values():
         k = (name, n.lineno)
         if k not in seen:
             seen.add(k)
